@@ -268,6 +268,22 @@ func (m NbMap) ToIPLD() (ipld.Node, error) {
 				ma.AssembleValue().AssignString("")
 			case specialBase + 3:
 				ma.AssembleValue().AssignBool(false)
+			case specialBase + 4, specialBase + 5, specialBase + 6:
+				var ks []string
+				switch v {
+				case specialBase + 4:
+					ks = []string{"a"}
+				case specialBase + 5:
+					ks = []string{"a", "b"}
+				default:
+					ks = []string{"b"}
+				}
+				mm, _ := ma.AssembleValue().BeginMap(int64(len(ks)))
+				for _, kk := range ks {
+					mm.AssembleKey().AssignString(kk)
+					mm.AssembleValue().AssignInt(map[string]int64{"a": 1, "b": 2}[kk])
+				}
+				mm.Finish()
 			default:
 				ma.AssembleValue().AssignInt(v)
 			}
@@ -323,10 +339,20 @@ func (nbReader) Read(input any) (NbMap, failure.Failure) {
 			}
 			out.F[ks] = int64(specialBase)
 		case datamodel.Kind_Map:
-			if v.Length() != 0 {
+			_, ea := v.LookupByString("a")
+			_, eb := v.LookupByString("b")
+			switch {
+			case v.Length() == 0:
+				out.F[ks] = int64(specialBase + 1)
+			case v.Length() == 1 && ea == nil:
+				out.F[ks] = int64(specialBase + 4)
+			case v.Length() == 2 && ea == nil && eb == nil:
+				out.F[ks] = int64(specialBase + 5)
+			case v.Length() == 1 && eb == nil:
+				out.F[ks] = int64(specialBase + 6)
+			default:
 				return NbMap{}, schema.NewSchemaError("unsupported caveat kind")
 			}
-			out.F[ks] = int64(specialBase + 1)
 		case datamodel.Kind_String:
 			if s, _ := v.AsString(); s != "" {
 				return NbMap{}, schema.NewSchemaError("unsupported caveat kind")
